@@ -7,6 +7,31 @@ Theorem c06_sandnet_layout :
 Proof. reflexivity. Qed.
 Print Assumptions c06_sandnet_layout.
 
+(* every constant the sandnet model takes from the repository (sizeof / offsetof of the packed wire structs, opcodes,
+   vectors, masks), regenerated into GenSandNet.v on each run, pinned to the value the proofs and statements were written
+   for: a change of the wire layout or of a constant in /repo breaks this obligation deterministically *)
+Theorem c06_sandnet_consts :
+  SA_PACKET_SIZE = 524 /\
+  SA_OPCODE_SIZE = 2 /\
+  SA_OFF_opcode = 0 /\
+  SA_OFF_contents = 2 /\
+  SA_DMX_SIZE = 515 /\
+  SA_DMX_DATA = 512 /\
+  SA_OFF_dmx_group = 0 /\
+  SA_OFF_dmx_universe = 1 /\
+  SA_OFF_dmx_dmx = 3 /\
+  SA_CDMX_SIZE = 522 /\
+  SA_CDMX_DATA = 512 /\
+  SA_OFF_cdmx_group = 0 /\
+  SA_OFF_cdmx_universe = 1 /\
+  SA_OFF_cdmx_dmx = 10 /\
+  SA_ADVERTISEMENT_SIZE = 235 /\
+  SA_OP_DMX = 768 /\
+  SA_OP_COMPRESSED_DMX = 2560 /\
+  SA_OP_ADVERTISEMENT = 256.
+Proof. repeat split; reflexivity. Qed.
+Print Assumptions c06_sandnet_consts.
+
 Theorem c06_sandnet_no_oob : forall buf n self st,
   bytes_ok buf = true -> len buf = 524 -> n <= len buf ->
   run buf (sa_handle n self st) <> Hazard Oob.
@@ -35,6 +60,37 @@ Proof.
   unfold SA_PACKET_SIZE. lia.
 Qed.
 Print Assumptions c06_sandnet_stale_free.
+
+(* independent of the capacity and of what the socket layer reports: for a receive buffer of ANY size and ANY reported
+   length n < 2^31 the handler returns (its loops end within their fuel: RLE decoder: fuel = data length + 1, every turn consumes at least one byte) and never divides by zero; and if
+   the buffer does hold n bytes it reads nothing at or beyond n *)
+Theorem c06_sandnet_any_length : forall buf n self st,
+  bytes_ok buf = true -> n <= 2147483647 ->
+  (forall z, z <> Oob -> run buf (sa_handle n self st) <> Hazard z) /\
+  (n <= len buf -> forall z, run buf (sa_handle n self st) <> Hazard z).
+Proof.
+  intros buf n self st Hb Hn. pose proof (sandnet_bounded_any n self st Hn) as B. split.
+  - intros z Hz E. apply Hz. exact (nofail_run _ (bounded_nofail _ _ B) buf z Hb E).
+  - intros Hl z. apply (bounded_no_hazard n); assumption.
+Qed.
+Print Assumptions c06_sandnet_any_length.
+
+(* history level: any sequence of datagrams (each from our own address or not), each followed in the receive buffer by arbitrary stale bytes, from any
+   initial state: no datagram ends in a hazard, and every output and the final state are the same whatever the
+   stale tails are *)
+Theorem c06_sandnet_history : forall (h1 h2 : list (bool * list N * list N)) s,
+  Forall (fun x => let '(_, d, t) := x in bytes_ok d = true /\ bytes_ok t = true /\ len d <= 524) h1 ->
+  Forall2 (fun x y => fst x = fst y) h1 h2 ->
+  (exists r, run_hist (fun self n st => sa_handle n self st) (fun _ r => fst r) s h1 = Done r) /\
+  run_hist (fun self n st => sa_handle n self st) (fun _ r => fst r) s h1 = run_hist (fun self n st => sa_handle n self st) (fun _ r => fst r) s h2.
+Proof.
+  intros h1 h2 s Hok H2.
+  assert (Hb : forall i n st, n <= SA_PACKET_SIZE -> bounded n ((fun self n st => sa_handle n self st) i n st)) by (intros; apply sandnet_bounded; assumption).
+  split.
+  - apply (hist_safe SA_PACKET_SIZE _ _ Hb). exact Hok.
+  - apply (hist_stale_free SA_PACKET_SIZE _ _ Hb); assumption.
+Qed.
+Print Assumptions c06_sandnet_history.
 
 (* compressed DMX for group 2 universe 7: repeat 3 x 9, literal [1; 2] *)
 Example ex_sandnet_handled :
